@@ -404,4 +404,5 @@ def run(ctx: Ctx, tier: str) -> Result:
         res.ok("C11.KEEP", {"no in-place change is made to a copy handed out by a property": len(scope_)})
     borrow(ctx, res, tier, "c03", ("C03.ACT",), "C11.EACHACT", "a tracepoint whose action fails at a hit affects only itself: the other actions of the event still run")
     borrow(ctx, res, tier, "c04", ("C04.UNITS",), "C11.LIMITS", "fire_count / fire_period reach the limiter with the value given (0 stays 0), in the unit the limiter compares in")
+    borrow(ctx, res, tier, "c04", ("C04.KEYS", "C04.TABLE"), "C11.LIMITS", "every action of a tracepoint is limited by the same fire_count / fire_period, read from the same keys in the same unit")
     return res
